@@ -617,6 +617,50 @@ class PyList:
         return f"PyList({self.items})"
 
 
+class LazyList(PyList):
+    """a generator expression: elements are produced on demand by a Python generator over the interpreter (one-shot, like the
+    real object); any consumer that reads .items drains it, next()/any()/all() step through it"""
+    def __init__(self, it):
+        self._it = it
+        self._buf = []
+        self._pos = 0          # elements already handed out by step()
+        self._done = False
+
+    def step(self):
+        if self._pos < len(self._buf):
+            self._pos += 1
+            return True, self._buf[self._pos - 1]
+        if self._done:
+            return False, None
+        try:
+            x = next(self._it)
+        except StopIteration:
+            self._done = True
+            return False, None
+        self._buf.append(x)
+        self._pos += 1
+        return True, x
+
+    @property
+    def items(self):
+        # what a full iteration still yields (a generator is consumed once)
+        while not self._done:
+            try:
+                self._buf.append(next(self._it))
+            except StopIteration:
+                self._done = True
+        rest = self._buf[self._pos:]
+        self._pos = len(self._buf)
+        return rest
+
+    @items.setter
+    def items(self, v):
+        raise TypeError("generator expressions are read-only")
+
+    def __repr__(self):
+        return "LazyList(...)"
+
+
 class PyDict:
     """dict with concrete hashable keys (python str/int/enum members) and arbitrary values; insertion ordered"""
     def __init__(self, d=None):
